@@ -16,6 +16,7 @@ from common import cq_bool, cq_list, cq_nat
 import props.c02 as c02
 
 ID = "C19"
+THOROUGH_ROUNDS = 2      # rounds of generate() in the thorough tier (new random draws each round)
 COQ_MODULE = "Corr.C19"
 SHARD = 200
 RULE = ("seeded random systems (graphs of C02; flows over ordered dimension subsets, 0-3 stocks) whose process, flow and stock "
